@@ -6,7 +6,7 @@ claim("C01", "lockset + value-provenance (SSA access paths) + channel typestate"
       "enqueued ID and the newID() result are one SSA value; the response copied to a client is the one received on that "
       "activation's own unbuffered channel (single receive site, not in a loop); the agent-facing endpoints use the request ID "
       "of their own call; (backend ID, request ID) travel in the right parameter roles from the pending list to the upload "
-      "headers. no per-request closure, goroutine-in-loop or pool shares scratch memory or loop variables between activations; the App Engine proxy's GET response cache uses one injective key of (user, URL). Not decided: interleavings inside net/http, ID collision probability, payload bytes.")
+      "headers. no per-request closure, goroutine-in-loop or pool shares scratch memory or loop variables between activations; the App Engine proxy's GET response cache uses one injective key of (user, URL). session numbers are never given back; App Engine blob parts keep their order. Not decided: interleavings inside net/http, ID collision probability, payload bytes.")
 
 claim("C02", "who-may-write table over resolved mutation sites + sibling tables + construction-site checks",
       "Byte identity through net/http is not decided. Decides that nothing in this repository's code on the request path alters "
@@ -14,7 +14,7 @@ claim("C02", "who-may-write table over resolved mutation sites + sibling tables 
       "*http.Request in the proxy's client path and the agent's handler chain is enumerated), that both hop-by-hop tables equal "
       "the RFC 7230 set, that the backend-facing proxy is httputil.NewSingleHostReverseProxy of a Scheme+Host URL without "
       "Director/Rewrite override, that the request object stored, serialised (Request.Write), parsed (private bufio.Reader) and "
-      "served is one chain of custody, that the fetched reply body stays open until the request was forwarded, that no pooled buffers carry request bytes, and that no ServeMux/StripPrefix/TimeoutHandler sits on the pass-through route.")
+      "served is one chain of custody, that the fetched reply body stays open until the request was forwarded, that no pooled buffers carry request bytes, that no fetch helper defers the cancel of the context its returned response still needs, and that no ServeMux/StripPrefix/TimeoutHandler sits on the pass-through route.")
 
 claim("C03", "ownership-transfer rule + taint (tokeniser as sanitiser) + partial evaluation of status comparisons + dominance",
       "Byte identity through Response.Write/ReadResponse is not decided. Decides the repository-specific shapes the statement's "
@@ -22,7 +22,7 @@ claim("C03", "ownership-transfer rule + taint (tokeniser as sanitiser) + partial
       "with the writer's fields, directly or through its accessor); declared-trailer names pass a comma tokeniser before being "
       "used as keys; 1xx statuses never latch a ResponseWriter or get published, all final statuses (incl. 101) do — evaluated "
       "for representative statuses of each class; every header/trailer copy is guarded by the hop-by-hop predicate on the same "
-      "key and by no other filter; chunked framing is forced before serialisation; a final status after an interim one is still forwarded (two-call simulation of every ResponseWriter), retries restart through the refusing rewind; wrappers forward their own status and slice.")
+      "key and by no other filter; chunked framing is forced before serialisation; a final status after an interim one is still forwarded (two-call simulation of every ResponseWriter), retries restart through the refusing rewind, the stand-alone proxy forces chunked framing unconditionally, writer types grow no optional net/http interfaces; wrappers forward their own status and slice.")
 
 claim("C04", "dominance / must-pass-through + confinement (escape) analysis + call-site uniqueness + channel typestate",
       "Decides for every order and grouping of pending-list replies: the worker start is control-dependent on the miss of the "
@@ -41,7 +41,7 @@ claim("C05", "deny-list over the static call closure of the response path + stru
       "bounded Read; the response is published from WriteHeader.")
 
 claim("C06", "counted-loop evaluation + must-pass-through + truth tables by partial evaluation + lockset + pairing rules",
-      "Decides for every fault sequence: at most three attempts (counted loop evaluated); every path from one client.Do to the "
+      "Decides for every fault sequence: at most three attempts (counted loop evaluated; the request is not replayable by net/http itself: no GetBody); every path from one client.Do to the "
       "next passes a rewind whose failure leaves the function; Seek refuses exactly when the retained prefix may be incomplete "
       "(writeHead vs len(buf), offset, whence evaluated on boundary values); the replay state is only touched under its mutex, "
       "each attempt reads through the handle returned by its own rewind and a stale generation never reaches the source; the replay buffer retains exactly p[k:k+n] at writeHead (offset agreement on sample values); both "
@@ -54,7 +54,7 @@ claim("C07", "VTA call-graph reachability + lockset + shared-state inventory + c
       "under its mutex (exclusive lock, RLock does not count for mutating accessors); every shared map / non-goroutine-safe object "
       "is guarded, per-request or read-only after construction; the dedup LRU is confined to the poller; no unchecked type "
       "assertion on per-request paths; possibly-nil messages are nil-checked across the shim channels; no close of a multi-sender "
-      "channel; published response maps are not aliased; default 502 error handler. Not decided: panics inside dependencies.")
+      "channel; published response maps are not aliased; JSON-decoded pointer elements are nil-tested; channels are closed only by their sole sender; default 502 error handler. Not decided: panics inside dependencies.")
 
 claim("C08", "interval abstract interpretation over SSA on a complete finite partition + loop-structure rule",
       "The delay function touches its argument through one comparison and one shift, so the 64-bit argument range splits into "
@@ -115,13 +115,13 @@ claim("C15", "sibling agreement (encoder/decoder) by partial evaluation + buffer
       "carrying hex of its own argument and reports len(argument); Read accepts exactly that type, decodes the payload it just read, "
       "refills only when its buffer is empty and keeps the remainder from the returned count; no websocket read limit exists while "
       "Write is unsegmented; each bridging function copies a→b and b→a over the same pair with matching WaitGroup counts; non-bridge "
-      "requests reach the pass-through handler with the original (w, r) and are never upgraded; both ends use one StreamingPath constant; goroutines started per accepted connection capture only per-iteration variables; the pass-through proxy is the stock single-host proxy.")
+      "requests reach the pass-through handler with the original (w, r) and are never upgraded; both ends use one StreamingPath constant; goroutines started per accepted connection capture only per-iteration variables; the pass-through proxy is the stock single-host proxy; one websocket writer per connection; the dial context is not retained.")
 
 claim("C16", "pairing: copy-loop completion must reach a close of the pair; acquisition/release pairing",
       "Timing is not decided. Decides the structural obstacle the property names: in each bridging function, when either "
       "direction's io.Copy returns that goroutine closes the connections of the pair (directly or via a closure that does), "
       "independently of its sibling — an expired deadline or a conditional close is not accepted — and every acquired connection "
-      "(Upgrade, Dial, Accept, DialWebsocket) has a deferred Close; no SO_LINGER≥0 is armed; a wrapper's Close never takes a lock that is held across blocking I/O.")
+      "(Upgrade, Dial, Accept, DialWebsocket) has a deferred Close; no SO_LINGER≥0 is armed and no raw descriptor is taken from a bridge socket; an acquisition is followed by its deferred Close on every path; a wrapper's Close never takes a lock that is held across blocking I/O.")
 
 claim("C17", "dominance + provenance (validated value) + sibling agreement of Store implementations + partial evaluation",
       "Identity values come from App Engine. Decides for all callers and orders: in each agent endpoint checkBackendID dominates "
@@ -152,4 +152,4 @@ claim("C20", "dominance + who-may-call + partial evaluation of health/threshold 
       "the failure counter is +1 on failure, 0 on success, starts at 0, and the terminating call is reachable exactly for counter ≥ "
       "threshold (clamped to ≥ 1); exactly SIGINT/SIGTERM are registered; after the signal main cancels the polling context, sleeps "
       "the grace period, terminates — or returns at once without one; every list call is preceded by the non-blocking cancellation "
-      "test and performs exactly one proxy round trip; the polling context never leaves pollForNewRequests and the shared HTTP client is not modified by the poller.")
+      "test and performs exactly one proxy round trip; runAdapter gives the polling context to the poller only; the polling context never leaves pollForNewRequests and the shared HTTP client is not modified by the poller.")
